@@ -107,7 +107,7 @@ def h_threshold(k_half_open, k_established, history='none'):
         c.handshake(e2, upto=4)
         a2 = e2.obj
         if h == 'deleted':
-            world.ENV.now = a2.delete_ike_sa_at + 1
+            world.ENV.now = a2.delete_ike_sa_at + 3600
             dreq = e2.call(a2.check_rekey_ike_sa_timer)
             e2.call(a2.process_message, c.dispatch(dreq))
         elif h == 'rekeyed':
